@@ -17,6 +17,8 @@ type gobCase struct {
 	Family string   `json:"family"`
 	Param  int      `json:"param,omitempty"`
 	Words  []string `json:"words,omitempty"` // explicit word list (small cases)
+	// ReusedBuilder: the Dawg is built by a Builder that has built (and finished) another word set before
+	ReusedBuilder bool `json:"built_by_reused_builder,omitempty"`
 }
 
 type gobCaseJSON gobCase
@@ -160,7 +162,26 @@ func evalGob(gc gobCase) *Failure {
 	}
 	var d *dawg.Dawg
 	var err error
-	if msg, p := try(func() { d, err = dawg.New(toBytes(words, false)) }); p || err != nil {
+	if msg, p := try(func() {
+		if gc.ReusedBuilder {
+			db := new(dawg.Builder)
+			db.Initialise()
+			for _, w := range []string{"a", "b", "ba", "q"} {
+				db.Add([]byte(w))
+			}
+			db.Finish()
+			db.Initialise()
+			for _, w := range words {
+				if e := db.Add([]byte(w)); e != nil {
+					err = e
+					return
+				}
+			}
+			d, err = db.Finish()
+			return
+		}
+		d, err = dawg.New(toBytes(words, false))
+	}); p || err != nil {
 		return mk("build-failed", fmt.Sprint(msg, err))
 	}
 	snap := snapshotDawg(d)
@@ -176,6 +197,18 @@ func evalGob(gc gobCase) *Failure {
 	var enc []byte
 	if msg, p := try(func() { enc, err = d.GobEncode() }); p || err != nil {
 		return mk("encode-failed"+sfx, fmt.Sprint(msg, err))
+	}
+	// an encoding belongs to the caller: encoding other Dawgs afterwards (smaller and larger ones) must not change it
+	{
+		held := append([]byte{}, enc...)
+		for _, other := range [][]string{{"ab", "b"}, {""}, {"x", "xy", "xyz", "xyzz", "y", "z"}, words} {
+			if o, e := dawg.New(toBytes(other, false)); e == nil {
+				try(func() { o.GobEncode() })
+			}
+		}
+		if !bytes.Equal(enc, held) {
+			return mk("encoding-changed-by-a-later-GobEncode"+sfx, "the bytes returned by GobEncode were overwritten when another Dawg was encoded")
+		}
 	}
 	decodeInto := func(t *dawg.Dawg, how string) *Failure {
 		if cl, what := checkDawgAgainst(t, words, nonMembers(words), false); cl != "" {
@@ -352,6 +385,9 @@ func runC14(c *Ctx) {
 	}
 	for s := uint64(0); s < 1<<uint(len(u3)); s += stride {
 		cases = append(cases, gobCase{Family: "explicit", Words: subsetOf(u3, s)})
+		if s%16 == 4 {
+			cases = append(cases, gobCase{Family: "explicit", Words: subsetOf(u3, s), ReusedBuilder: true})
+		}
 	}
 	ub := wordsUpTo([]byte{0x00, 'm', 0xff}, 2)
 	for s := uint64(0); s < 1<<uint(len(ub)); s += stride {
